@@ -20,6 +20,9 @@ pub struct Screened {
     pub holiday_exprs: Vec<String>,
     pub easter_exprs: Vec<String>,
     pub excluded: Vec<(String, String)>,
+    /// expressions whose sequential evaluation panics on the unchanged tree (a totality matter, C04); they are
+    /// kept as a *fault*: an evaluation that unwinds half-way must not change what later evaluations return
+    pub panicking_exprs: Vec<String>,
     pub countries: Vec<String>,
     /// pairs of places ~20 m apart on opposite sides of a time-zone border (1e-4 degrees), found by
     /// walking along lines between cities with the library's own zone lookup
@@ -34,6 +37,7 @@ pub struct Pools {
     pub holiday_exprs: Vec<String>,
     pub easter_exprs: Vec<String>,
     pub sun_exprs: Vec<String>,
+    pub panicking_exprs: Vec<String>,
     pub invalid_exprs: Vec<String>,
     pub excluded: Vec<(String, String)>,
     pub countries: Vec<String>,
@@ -75,6 +79,10 @@ const HAND_WRITTEN: &[&str] = &[
     "2020-2030/2 Mo-Fr 09:00-12:00",
     "Jun 15-Aug 31: Mo-Su 09:00-21:00",
     "Mo-Fr 07:30-19:00; Sa 08:00-13:00; Su off",
+    // evaluation of these unwinds on the unchanged tree (extended time beyond 48:00 built from a sun event);
+    // the pre-screen moves them to the "panicking" pool
+    "10:00-12:00,(sunset+06:00)-25:00",
+    "Mo-Fr 08:00-09:00,(dusk+05:30)-26:00",
 ];
 
 const HOLIDAY_EXPRS: &[&str] = &[
@@ -107,6 +115,10 @@ const SUN_EXPRS: &[&str] = &[
     "sunrise-12:00; 14:00-sunset unknown",
     "Mo-Su (dawn-00:30)-10:00, 18:00-(dusk+00:30)",
     "sunset-sunrise",
+    "Sa sunset-(sunset+04:00)",
+    "Fr,Sa (sunset-01:00)-(sunset+05:00); Su 10:00-12:00",
+    "Mo-Fr dusk-(dusk+06:00)",
+    "Su (sunrise-03:00)-sunrise",
 ];
 
 /// expression pairs that differ in spacing only and mean different things
@@ -179,6 +191,10 @@ fn instants() -> Vec<i64> {
         f(2030, 7, 4, 15, 0, 0),
         f(1999, 12, 31, 23, 59, 30),
         f(2021, 4, 10, 0, 5, 0),
+        // around a midnight between a Saturday and a Sunday in June
+        f(2024, 6, 15, 21, 30, 0),
+        f(2024, 6, 16, 0, 30, 0),
+        f(2024, 6, 16, 22, 15, 0),
     ]
 }
 
@@ -253,7 +269,8 @@ impl Pools {
                 spacing_variants.push((a, b));
             }
         }
-        Screened { exprs, holiday_exprs, easter_exprs, excluded, countries, border_pairs: find_border_pairs(), spacing_variants }
+        let panicking_exprs: Vec<String> = excluded.iter().filter(|(_, why)| why.starts_with("sequential evaluation panics")).map(|(e, _)| e.clone()).collect();
+        Screened { exprs, holiday_exprs, easter_exprs, excluded, panicking_exprs, countries, border_pairs: find_border_pairs(), spacing_variants }
     }
 
     pub fn from_screened(s: Screened) -> Pools {
@@ -262,6 +279,7 @@ impl Pools {
             holiday_exprs: s.holiday_exprs,
             easter_exprs: s.easter_exprs,
             sun_exprs: SUN_EXPRS.iter().map(|s| s.to_string()).collect(),
+            panicking_exprs: s.panicking_exprs,
             invalid_exprs: INVALID.iter().map(|s| s.to_string()).collect(),
             excluded: s.excluded,
             countries: s.countries,
